@@ -192,6 +192,17 @@ def delNoPred : List DChange :=
       [[182, 102, 132, 199, 153, 72, 14, 243, 87, 48, 95, 173, 19, 25, 238, 253, 151, 75, 57, 202, 46, 68, 198, 176, 67, 155, 140, 129, 171, 84, 247, 124]],
       [⟨oid 2 B, .root, .map [0x61], false, .del, []⟩]⟩, 0, none, []⟩ ]
 
+/-- a put by A, then a change by B WITHOUT ops whose `start_op` (10) is beyond one past the `max_op`
+    of its dependency (1): `apply_changes` accepts it from a peer; no library call makes one (an empty
+    change made locally starts at `max_op + 1`) -/
+def emptyGap : List DChange :=
+  [ ⟨⟨[182, 102, 132, 199, 153, 72, 14, 243, 87, 48, 95, 173, 19, 25, 238, 253, 151, 75, 57, 202, 46, 68, 198, 176, 67, 155, 140, 129, 171, 84, 247, 124],
+      A, 1, 1, [], [⟨oid 1 A, .root, .map [0x61], false, .put (.int 1), []⟩]⟩, 0, none, []⟩,
+    ⟨⟨[167, 101, 73, 139, 246, 140, 226, 172, 226, 188, 170, 89, 198, 74, 202, 50, 186, 61, 50, 145, 179, 244, 76, 158, 106, 58, 198, 251, 149, 14, 188, 153],
+      B, 1, 10,
+      [[182, 102, 132, 199, 153, 72, 14, 243, 87, 48, 95, 173, 19, 25, 238, 253, 151, 75, 57, 202, 46, 68, 198, 176, 67, 155, 140, 129, 171, 84, 247, 124]],
+      []⟩, 0, none, []⟩ ]
+
 end Ex
 
 end AmVerif.DocCodec
